@@ -204,7 +204,9 @@ class UnitsSerializer(Serializer):
             matched_regex = self.regex_for_serialized.fullmatch(data)
             if matched_regex:
                 data = matched_regex.group(1)
-            if data.startswith('nan'):
+            # a nan magnitude, not a unit whose name starts with "nan"
+            # (nanometer, nanogram)
+            if data == 'nan' or data.startswith('nan '):
                 # parse the units as "1 <units>" so that reciprocal
                 # units such as "nan / second" are understood too
                 unit_str = data[len('nan'):].strip()
